@@ -20,6 +20,13 @@ Export ListNotations.
 
 Definition bytes := list N.
 
+(* `level > limit` for an optional nesting limit (None = no limit) *)
+Definition over (o : option nat) (n : nat) : bool :=
+  match o with Some x => Nat.ltb x n | None => false end.
+(* parser/query_parser.go: const maxNestingDepth, shared by both parsers; every nesting case of the
+   correspondence run compares it with the constant exported by parser/export_verif_c12b.go *)
+Definition max_nesting_depth : nat := 100 * 100.
+
 (* outcome: value | parse error | Go runtime panic | model fuel exhausted *)
 Inductive R (A : Type) := ROk (a : A) | RErr | RPanic | RFuel.
 Arguments ROk {A} a. Arguments RErr {A}. Arguments RPanic {A}. Arguments RFuel {A}.
@@ -659,7 +666,15 @@ Section Lex.
      `*` alone at depth 0 is one TAtom; a (well-formed) pipe section becomes the terminator TPipe,
      at which the token-level parser folds its accumulators (ParseSeqQL's final IsEnd check is the
      RPanic below). operand = true: a sub-expression is expected. *)
-  Fixpoint glue (fuel : nat) (ts : list ltok) (depth : nat) (operand : bool) : R (list tok) :=
+  (* maxd = maxNestingDepth of parseSeqQLSubexpr (None = the code before the limit, `_v0`).
+     The walk tracks lex.level: bases = the levels to return to at each open `(`, base = frames of
+     the enclosing groups (their `(` and the NOTs in front of them), pending = NOTs in front of the
+     current operand; every operand position is an entry of parseSeqQLSubexpr at level
+     base + pending + 1, rejected beyond the limit. in(..) is not a sub-expression: no level. *)
+  Variable maxd : option nat.
+
+  Fixpoint glue (fuel : nat) (ts : list ltok) (depth : nat) (operand : bool)
+           (bases : list nat) (base pending : nat) : R (list tok) :=
     match fuel with
     | 0 => RFuel
     | S f =>
@@ -667,18 +682,23 @@ Section Lex.
       | [] => ROk []
       | t :: r =>
         if operand then
+          let lvl := S (base + pending) in
+          if over maxd lvl then RErr else
           if is_kw wildcard_bytes t && Nat.eqb depth 0 then
-            do l <- glue f r depth false; ROk (TAtom 0 :: l)
-          else if is_kw kw_lp t then do l <- glue f r (S depth) true; ROk (TLP :: l)
-          else if is_kw kw_not t then do l <- glue f r depth true; ROk (TNot :: l)
+            do l <- glue f r depth false bases base 0; ROk (TAtom 0 :: l)
+          else if is_kw kw_lp t then
+            do l <- glue f r (S depth) true (base :: bases) lvl 0; ROk (TLP :: l)
+          else if is_kw kw_not t then
+            do l <- glue f r depth true bases base (S pending); ROk (TNot :: l)
           else
             do st <- field_filter ts;
             let '(toks, ts') := st in
-            do l <- glue f ts' depth false; ROk (toks ++ l)
+            do l <- glue f ts' depth false bases base 0; ROk (toks ++ l)
         else
-          if is_kw kw_and t then do l <- glue f r depth true; ROk (TAnd :: l)
-          else if is_kw kw_or t then do l <- glue f r depth true; ROk (TOr :: l)
-          else if is_kw kw_rp t then do l <- glue f r (pred depth) false; ROk (TRP :: l)
+          if is_kw kw_and t then do l <- glue f r depth true bases base 0; ROk (TAnd :: l)
+          else if is_kw kw_or t then do l <- glue f r depth true bases base 0; ROk (TOr :: l)
+          else if is_kw kw_rp t then
+            do l <- glue f r (pred depth) false (tl bases) (hd 0 bases) 0; ROk (TRP :: l)
           else if is_kw kw_pipe t then
             do rest <- pipes (S (length ts)) ts 0;
             match rest with [] => ROk [TPipe] | _ => RPanic end
@@ -689,7 +709,7 @@ Section Lex.
   (* ParseSeqQL on raw bytes: lexer, glue, token-level parser of Model.v *)
   Definition seqql_parse (q : bytes) : R ast :=
     do lts <- lex q;
-    do ts <- glue (S (length lts)) lts 0 true;
+    do ts <- glue (S (length lts)) lts 0 true [] 0 0;
     match parse ts with
     | Ok a => ROk a
     | Err => RErr
